@@ -1671,11 +1671,15 @@ impl<'m, 'a> Driver<'m, 'a> {
         }
         let mid = *rng.pick(&ml);
         let off = rng.below(64) as i32;
-        let seg = DataSegment {
-            kind: DataSegmentKind::Active { memory_index: mid, offset_expr: InitExpr::new(vec![InitInstr::Value(Value::I32(off))]) },
-            data: payload.clone(),
-            tag: None,
+        // 1 in 3 (when there is one): the offset reads an imported immutable i32 global instead of a constant
+        let off_globals: Vec<u32> =
+            self.model.globals.iter().filter(|(_, e)| e.alive && !e.local && !e.mutable && e.vt == Some(VT::I32)).map(|(k, _)| *k).collect();
+        let via_global = if !off_globals.is_empty() && rng.chance(1, 3) { Some(*rng.pick(&off_globals)) } else { None };
+        let offset_expr = match via_global {
+            Some(gid) => InitExpr::new(vec![InitInstr::Global(GlobalID(gid))]),
+            None => InitExpr::new(vec![InitInstr::Value(Value::I32(off))]),
         };
+        let seg = DataSegment { kind: DataSegmentKind::Active { memory_index: mid, offset_expr }, data: payload.clone(), tag: None };
         let m = &mut *self.m;
         let r = catch(move || {
             m.add_data(seg);
@@ -1683,7 +1687,10 @@ impl<'m, 'a> Driver<'m, 'a> {
         let i = self.model.n_datas;
         self.model.n_datas += 1;
         self.model.log.push(format!("add_data active on MemoryID({}) = {}", mid, self.model.mems[&mid].ident));
-        let offop = sym::sym_op(&wasmparser::Operator::I32Const { value: off }).unwrap();
+        let offop = match via_global {
+            Some(gid) => sym::sym_op(&wasmparser::Operator::GlobalGet { global_index: gid }).unwrap(),
+            None => sym::sym_op(&wasmparser::Operator::I32Const { value: off }).unwrap(),
+        };
         self.model.flat.insert(format!("data[{}].mem", i), self.model.mems[&mid].ident.clone());
         self.model.flat.insert(format!("data[{}].offset", i), self.init_sym_str(&[offop]));
         self.model.flat.insert(format!("data[{}].bytes", i), payload.iter().map(|b| format!("{:02x}", b)).collect());
